@@ -23,6 +23,10 @@ print(' '.join(ids[:2]))")
   hit=""
   for c in $checks; do
     /venv/bin/python $here/depsim/check.py $c --tier $tier --no-selftest --no-shrink --first > /tmp/regress_$name.$c.out 2>&1; rc=$?
+    if [ $rc -eq 2 ]; then
+      # the first observation did not survive confirmation (or a run hit the wall cap): search the whole tier
+      /venv/bin/python $here/depsim/check.py $c --tier $tier --no-selftest --no-shrink > /tmp/regress_$name.$c.out 2>&1; rc=$?
+    fi
     if [ $rc -eq 1 ]; then hit="$c"; break; fi
   done
   (cd $repo && git checkout -q -- .)
